@@ -21,6 +21,16 @@
 
 #include "memcmplen.h"
 
+#ifdef TUKAANI_PROJECT_XZ_VERIF
+// Test-only hook H1 (see /verif/DESIGN.md section 4.3): if nonzero, this value
+// replaces the initial match finder offset so that lzma_mf.read_pos +
+// lzma_mf.offset reaches MUST_NORMALIZE_POS (UINT32_MAX), and thus
+// normalize() in lz_encoder_mf.c runs, after UINT32_MAX - value bytes
+// instead of after about 4 GiB. Values smaller than cyclic_size are ignored
+// because the match finders rely on offset >= cyclic_size.
+uint32_t lzma_verif_mf_offset_init = 0;
+#endif
+
 
 typedef struct {
 	/// LZ-based encoder e.g. LZMA
@@ -393,6 +403,10 @@ lz_encoder_init(lzma_mf *mf, const lzma_allocator *allocator,
 	// that match finder needs to be normalized more often, which may
 	// hurt performance with huge dictionaries.
 	mf->offset = mf->cyclic_size;
+#ifdef TUKAANI_PROJECT_XZ_VERIF
+	if (lzma_verif_mf_offset_init > mf->cyclic_size)
+		mf->offset = lzma_verif_mf_offset_init;
+#endif
 	mf->read_pos = 0;
 	mf->read_ahead = 0;
 	mf->read_limit = 0;
